@@ -4,7 +4,7 @@ import json, subprocess
 
 CHECKS = {
  "C01": dict(
-  technique="bounded-exhaustive enumeration of programs (all clause sequences up to a length bound over a clause menu, all head/argument term pairs up to depth 2, all bodies up to a length bound over call/N and control wrappers, all constructions of a list from nested partial lists) executed on the real interpreter; answer sequences compared with an independent reference SLD machine",
+  technique="bounded-exhaustive enumeration of programs (all clause sequences up to a length bound over a clause menu, all head/argument term pairs up to depth 2, all bodies up to a length bound over call/N and control wrappers, all constructions of a list from nested partial lists, a sweep of the head size 0..34/70 against top-level disjunctive bodies) executed on the real interpreter; answer sequences compared with an independent reference SLD machine",
   text="Every program of the enumerated families is loaded into a fresh real interpreter and every query is run to exhaustion; the complete answer sequence (structurally captured, up to variable renaming), the terminal status, the error term and the output are compared with a textbook goal-stack/choice-point reference machine that shares no design with the promise/continuation VM. Exhaustive within the stated size bounds, smallest first.",
   note="Trusted: the reference machine ref/solve (self-checked against the ISO examples) and the harness printer; programs beyond the size bounds or outside the signature are not covered; cases on which the reference exceeds its step budget are compared on the answer prefix only.",
   design="DESIGN.md §3 C01"),
@@ -14,7 +14,7 @@ CHECKS = {
   note="Trusted: ref/unify and the conservative STO detector (pairs subject to occurs check are skipped for =/2, as ISO leaves them undefined).",
   design="DESIGN.md §3 C02"),
  "C03": dict(
-  technique="bounded-exhaustive enumeration of control skeletons (all clause bodies up to a length bound over 28 item shapes incl. every opaque wrapper, x clause layouts x 13 calling contexts, plus a sweep of the recursion depth between call and cut) on the real interpreter; answer sequence and execution trace compared with an ISO reference machine",
+  technique="bounded-exhaustive enumeration of control skeletons (all clause bodies up to a length bound over 37 item shapes incl. every opaque wrapper (call/N, \\+, once, findall, bagof, setof, catch, call_nth), x clause layouts x 14 calling contexts, plus a sweep of the recursion depth between call and cut) on the real interpreter; answer sequence and execution trace compared with an ISO reference machine",
   text="Every skeleton is loaded into a fresh real interpreter and run in every calling context; generators write one character per clause tried, so the comparison with the reference machine (ISO cut barriers, call/N opaque) covers both the answers and exactly which alternatives were retried. A depth sweep puts every stack size 0..72 between the call and the cut. Exhaustive within the bounds.",
   note="Trusted: ref/solve's cut semantics (self-checked against ISO 7.8.4 examples). Cut placements inside nested ;/,/-> are excluded as the property states.",
   design="DESIGN.md §3 C03"),
@@ -24,7 +24,7 @@ CHECKS = {
   note="Trusted: ref/solve's catch/throw semantics (self-checked against ISO 7.8.9 examples); only the formal part of error(Formal, Context) is compared.",
   design="DESIGN.md §3 C04"),
  "C08": dict(
-  technique="bounded-exhaustive enumeration on the real interpreter against a reference standard order: all pairs of a term universe through compare/3 and the six comparison predicates, in-call comparison matrices checked for the order laws, all lists up to a length bound through sort/2, setof/3 and keysort/2 (plus all 2^13 long lists for stability), all pairs of list construction recipes",
+  technique="bounded-exhaustive enumeration on the real interpreter against a reference standard order: all pairs of a term universe through compare/3 and the six comparison predicates, in-call comparison matrices checked for the order laws, all lists up to a length bound through sort/2, setof/3 and keysort/2 (plus all 2^13 long lists for stability), all pairs of list construction recipes, and the integer/float boundary grids (complete comparison matrices with the order laws, all pairs through the six predicates, sorts of all short lists of extreme values)",
   text="Every ordered pair of the universe is compared through compare/3 and ==, \==, @<, @=<, @>, @>= and checked against the reference order; complete comparison matrices computed inside one call are checked for totality, antisymmetry, transitivity and '=' exactly for identical terms; every list up to the bound is sorted with sort/2, setof/3 and keysort/2 and compared with the reference (ascending, duplicate-free / stable); the same abstract list built through 13 constructor paths must compare '=' and sort alike.",
   note="Trusted: ref/order as the property states the order. Results that hinge on the relative order of two distinct unbound variables are not asserted (inconclusive).",
   design="DESIGN.md §3 C08"),
@@ -35,31 +35,31 @@ CHECKS = {
   design="DESIGN.md §3 C09"),
  "C10": dict(
   technique="bounded-exhaustive enumeration of clause terms added through both paths (Exec, assertz after bindings) on the real interpreter: clause/2 listing and calls compared with the reference executing the source term, and translation validation of the stored bytecode by an independent decompiler (state read through a build-tag-guarded accessor); every clause of bootstrap.pl decompiled",
-  text="Every clause of the enumerated families is added to a fresh real interpreter by loading and by assertz (after bindings made in the asserting query) and then observed from later queries: clause/2 must answer a variant of the source with those bindings applied, calls with every argument pattern must behave as the reference machine says the source clause behaves, and the compiled instruction list, decompiled by an inverse of the compiler written for the harness, must denote the source term (same head arguments, body goals, variable sharing). The number of distinct variables is swept 0..40.",
+  text="Every clause of the enumerated families is added to a fresh real interpreter by loading and by assertz (after bindings made in the asserting query) and then observed from later queries: clause/2 must answer a variant of the source with those bindings applied, calls with every argument pattern must behave as the reference machine says the source clause behaves, and the compiled instruction list, decompiled by an inverse of the compiler written for the harness, must denote the source term (same head arguments, body goals, variable sharing). The number of distinct variables is swept 0..40, and the head size 0..40 against top-level disjunctive bodies.",
   note="Trusted: the decompiler (h/decompile.go), the reference machine and the harness reader used for bootstrap.pl. The accessor is injected at build time with -overlay (build tag verif); nothing is committed to /repo for it.",
   design="DESIGN.md §3 C10"),
  "C11": dict(
-  technique="bounded-exhaustive enumeration of fact bases with every combination of witness shapes x predicate x template x ^-quantification x instance argument (plus nested and pre-bound queries) on the real interpreter; answers compared with a literal ISO 8.10 reference (findall as sequence, bagof/setof groups as multiset)",
+  technique="bounded-exhaustive enumeration of fact bases with every combination of witness shapes x predicate x template x ^-quantification x instance argument (plus nested and pre-bound queries, and fact sequences whose witness is the same list in up to 16 internal representations) on the real interpreter; answers compared with a literal ISO 8.10 reference (findall as sequence, bagof/setof groups as multiset)",
   text="Every fact base of up to 2 (quick) / 3 (thorough) facts over a witness domain with ground, partially bound, variant and non-variant clause-local variables is queried with findall/bagof/setof under every template, ^-set, goal shape and instance argument; the complete answer set (groups, their contents and order inside a group, the bindings of the free variables, goal variables left unbound) must equal the reference's.",
   note="Trusted: the reference all-solutions algorithm (ISO 8.10.1-3, 7.1.1.4), self-checked against the ISO examples. Group order is deliberately not compared.",
   design="DESIGN.md §3 C11"),
  "C12": dict(
-  technique="stateless model checking of the real iterator code under a hand-written controlled scheduler: interpreter.go and solutions.go are rebuilt with their channel operations and go statement mechanically routed through a shim (go build -overlay), and every call history up to a length bound is executed under all interleavings of consumer and search goroutine(s) within a preemption bound (DFS over schedules, replayable choice lists); breadth-first over histories with a (model state, scheduler-visible state, last call) key",
+  technique="stateless model checking of the real iterator code under a hand-written controlled scheduler: interpreter.go and solutions.go are rebuilt with their channel operations and go statement mechanically routed through a shim (go build -overlay), and every call history up to a length bound is executed under all interleavings of consumer and search goroutine(s) within a preemption bound (DFS over schedules, replayable choice lists); breadth-first over histories with a (model state, scheduler-visible state, last call) key; a generator family (38 nondeterministic constructs and built-ins x histories that close early, late or never, with an immediate and a deferred side effect after the generator)",
   text="Every history over {Next, Scan, Err, Close} up to length 6 (quick) / 7 (thorough) on 8 kinds of query, and every merge of two short histories on two Solutions of one interpreter, is run on the real code under every schedule with at most 2/3 preemptions. A blocking call is decided exactly (no enabled thread), as are goroutine leaks after Close/exhaustion and goals running after Close; results are compared with a sequential iterator model.",
-  note="Trusted: the syntactic rewriter and the shim's model of Go channels (DESIGN.md Appendix B); schedules are explored up to the stated preemption bound; data races are outside a cooperative scheduler's view (separate -race pass planned).",
+  note="Trusted: the syntactic rewriter and the shim's model of Go channels (DESIGN.md Appendix B); schedules are explored up to the stated preemption bound; data races are outside a cooperative scheduler's view (the free-running -race pass of C14 covers the iterator bodies too).",
   design="DESIGN.md §3 C12"),
  "C13": dict(
-  technique="bounded-exhaustive enumeration of (looping program, wrapper nesting, call position, cancellation instant) with a deterministic cancellation seam on the real interpreter: the writer given as user_output calls the real cancel() at the k-th byte, k = 0..K, so every poll class of every loop iteration is hit; oracle = returned error, bounded number of further side effects, follow-up queries vs a fresh interpreter; a per-case watchdog turns 'does not return' into a reported violation",
+  technique="bounded-exhaustive enumeration of (looping program, wrapper nesting, call position, cancellation instant) with a deterministic cancellation seam on the real interpreter: the writer given as user_output calls the real cancel() at the k-th byte, k = 0..K plus deep instants (300..40000 iterations into the run), so every poll class of every loop iteration is hit and the machine's stacks are large at the instant of cancellation; oracle = returned error, bounded number of further side effects, follow-up queries (failing, single-answer, enumerated to exhaustion) issued immediately afterwards vs a fresh interpreter; a per-case watchdog turns 'does not return' into a reported violation",
   text="Every combination of 13 loops, 12 wrappers (nested), 7 call positions (query, second answer, directive, initialization goal, term_expansion body, consulted file via consult/1 and via an ensure_loaded/1 directive) and every cancellation instant up to 12 (quick) / 60 (thorough) bytes of loop output is executed; the pending call must return the context's error, at most 64 bytes may follow cancel(), and the interpreter must then answer follow-up queries (and be able to reload the file) like a fresh one.",
   note="Cancellation instants are enumerated as 'k-th observable side effect', which covers every class 'first poll that sees it' for loops that write; loops that write nothing are cancelled from a timer (instants not controlled). 'Promptly' is decided as a step bound plus a 25 s horizon, never as a latency.",
   design="DESIGN.md §3 C13"),
  "C14": dict(
-  technique="stateless model checking of the real atom table / variable counter under a controlled scheduler (sync and sync/atomic of engine/atom.go, engine/variable.go routed through a shim at build time): all pairs/triples of short thread programs under every interleaving within a preemption bound, each recorded call/return history checked for linearizability with porcupine; two interpreters running small queries under every schedule within a deviation bound; exhaustive mutator x observer isolation matrix; separate free-running -race pass",
+  technique="stateless model checking of the real atom table / variable counter under a controlled scheduler (sync and sync/atomic of engine/atom.go, engine/variable.go routed through a shim at build time): all pairs/triples of short thread programs under every interleaving within a preemption bound, each recorded call/return history checked for linearizability with porcupine; two interpreters running small queries under every schedule within a deviation bound; exhaustive mutator x observer isolation matrix; results kept by the caller across the whole goal matrix (every registered procedure x argument shapes) re-rendered after another interpreter ran the same goals; separate free-running -race pass incl. a round in which 8 interpreters run the goal matrix at once",
   text="The shared process-wide state (atom table, variable counter) is exercised by every combination of short thread programs forced to collide on names that are new in each execution, under all interleavings at lock/unlock/atomic operations up to 3 (quick) / 6 (thorough) preemptions; linearizability against a sequential map is decided per schedule. Isolation is decided exhaustively for 19 mutators x 23 observers in two stream configurations. Data-race freedom proper is left to the race detector on free-running runs of the same kind of bodies, because a cooperative scheduler cannot see unsynchronised accesses.",
   note="Trusted: shim lock model, porcupine v1.3.0, Go race detector. Memory-model effects weaker than sequential consistency are not explored.",
   design="DESIGN.md §3 C14"),
  "C17": dict(
-  technique="bounded-exhaustive enumeration of grammars (all rule bodies up to a length bound over 33 body constructs, 4 rule variants, loaded through Exec and through expand_term/2 + assertz/1) x all input lists up to a length bound on the real interpreter, compared with a direct (non-translating) interpreter of grammar bodies inside the reference machine",
+  technique="bounded-exhaustive enumeration of grammars (all rule bodies up to a length bound over 35 body constructs, 9 rule variants (push-back heads of one, two, three terminals, a string, empty, with a head variable), cuts nested in alternations, loaded through Exec and through expand_term/2 + assertz/1) x all input lists up to a length bound on the real interpreter, compared with a direct (non-translating) interpreter of grammar bodies inside the reference machine",
   text="Every grammar of the enumerated family is loaded into a fresh real interpreter and queried with phrase/2 and phrase/3 for every input list up to the bound, for all remainders, and in generation mode; success/failure, the bindings of the non-terminals' arguments, the remainder and the answer order must equal those of a reference that interprets grammar bodies directly over difference lists and never translates a rule.",
   note="Trusted: the direct DCG interpreter in ref/solve.go (sequence, alternation, {}, \\+, !, call//N, if-then-else, push-back) and the reference machine underneath.",
   design="DESIGN.md §3 C17"),
@@ -69,12 +69,12 @@ CHECKS = {
   note="Trusted: ref/optable.go (ISO 8.14.3 / 6.3.4.3). The initial table is read from a fresh instance. Which error a failing op/3 raises is left to C05.",
   design="DESIGN.md §3 C18"),
  "C19": dict(
-  technique="bounded-exhaustive enumeration of input-operation sequences x source texts x stream kinds x eof_action on real streams (files via open/4, host readers incl. one-byte-at-a-time and data-with-EOF readers), each sequence issued as separate queries and as one conjunction, compared step by step with a reference cursor model; all sequences of output operations to host writer and file",
+  technique="bounded-exhaustive enumeration of input-operation sequences x source texts x stream kinds x eof_action on real streams (files via open/4, host readers incl. one-byte-at-a-time and data-with-EOF readers, and a host source that grows after it reported end of file (feed events interleaved with the operations)), each sequence issued as separate queries and as one conjunction, compared step by step with a reference cursor model; all sequences of output operations to host writer and file",
   text="Every sequence of up to 3 (quick) / 4 (thorough) operations over the input predicates (character, byte, term, peeks incl. failing peeks, end-of-stream tests, position) is run on 18 sources (incl. multi-byte text and texts whose operations straddle byte 4096 of the buffer), 6 stream configurations and binary files; every observed value must be what a single forward cursor yields: peeks leave the cursor, consecutive reads deliver consecutive input, end_of_file then the eof_action, position = bytes consumed. Output sequences must reach the sink completely and in order.",
   note="Trusted: the cursor model in checks/c19.go. Whether read_term/3 consumes the layout character after the end token is resolved by observing the implementation once; the outcome for a text that ends inside a term is not asserted.",
   design="DESIGN.md §3 C19"),
  "C20": dict(
-  technique="bounded-exhaustive enumeration of program texts (all item sequences up to a length bound), fault enumeration (every fault kind at every position, on top of every small earlier load), two-load histories and a run-length sweep, loaded through Exec and consult/1 on the real interpreter and compared with a stage-then-commit reference loader",
+  technique="bounded-exhaustive enumeration of program texts (all item sequences up to a length bound), fault enumeration (every fault kind at every position, texts ending inside a token or comment, on top of every small earlier load), two-load histories and a run-length sweep, loaded through Exec and consult/1 on the real interpreter and compared with a stage-then-commit reference loader",
   text="Every text of up to 4 items out of 15 is loaded; into every text of up to 2 (quick) / 3 (thorough) items each of 6 faults is injected at every position (plus truncation), on top of every small earlier load; every small text is followed by every text of up to 2/3 items; clause runs of every length 1..17 (33) are followed by another predicate and more clauses. After every load: error or not, the output of observing directives and initialization goals, and the ordered answers of every predicate must equal the reference loader's (a failed load changes nothing).",
   note="Trusted: the reference loader in checks/c20.go (stage, fail as a whole, commit with replace / multifile append, then initialization). What a directive sees of its own text's earlier clauses is not asserted.",
   design="DESIGN.md §3 C20"),
@@ -84,17 +84,17 @@ CHECKS = {
   note="Trusted: the denotation function in checks/c15.go. Invalid UTF-8 strings have no denoting literal and are excluded.",
   design="DESIGN.md §3 C15"),
  "C16": dict(
-  technique="bounded-exhaustive enumeration of call patterns on the real interpreter against relations computed by brute force: every instantiation pattern the modes admit x every combination of bound values (matching and non-matching), answers compared as multisets; infinite / variable-creating modes against the reference machine",
+  technique="bounded-exhaustive enumeration of call patterns on the real interpreter against relations computed by brute force: every instantiation pattern the modes admit x every combination of bound values (matching and non-matching), answers compared as multisets; infinite / variable-creating modes against the reference machine; chains in which the input list is the answer of one of 12 built-in constructions at every length 0..9 and two calls extend the same list with both answers kept",
   text="For each of the 17 predicates the complete relation over a finite domain (multi-byte characters, lists, integers near the 64-bit limits) is enumerated by brute force and every admissible call pattern is compared with the matching subset of the relation, each tuple exactly once - which also yields the monotonicity clause of the property.",
   note="Trusted: ref/relations (brute-force definitions in terms of runes and positions); member/select answer once per occurrence.",
   design="DESIGN.md §3 C16"),
  "C05": dict(
-  technique="bounded-exhaustive enumeration of inputs in isolated worker processes with crash containment: all token strings up to a length bound (and all 1- and 2-byte strings) through Exec and Query; every registered procedure (listed through a build-tag-guarded accessor) x all argument-shape tuples; a write-ahead record attributes a killed process to the exact input, a watchdog turns a call that does not return into a violation",
-  text="Every string of up to 3 (quick) / 4 (thorough) tokens over a 29-token alphabet derived from the lexer, with and without a final full stop, is handed to Exec and Query; every registered procedure is called with every tuple of 14/22 argument shapes (first answer plus a retry) on an interpreter with real streams and on prolog.New(nil, nil). The process must survive (fatal runtime errors are caught by re-running the batch in fine mode), the call must return, errors raised by predicates must be error(Formal, _) with an ISO formal error term, and no error may be the residue of a recovered Go panic.",
+  technique="bounded-exhaustive enumeration of inputs in isolated worker processes with crash containment: all token strings up to a length bound (and all 1- and 2-byte strings) through Exec and Query; every registered procedure (listed through a build-tag-guarded accessor) x all argument-shape tuples; every evaluable functor of eval's dispatch tables x an operand grid; every procedure x 7 kinds of stream argument (closed, binary, at end, ...) in every position; all short conjunctions of database-changing goals under open calls; a write-ahead record attributes a killed process to the exact input, a watchdog turns a call that does not return into a violation",
+  text="Every string of up to 3 (quick) / 4 (thorough) tokens over a 29-token alphabet derived from the lexer, with and without a final full stop, is handed to Exec and Query; every registered procedure is called with every tuple of 14/22 argument shapes (first answer plus a retry) on an interpreter with real streams and on prolog.New(nil, nil); every evaluable functor is applied to every pair of 25 operand shapes under is/2, comparisons and catch/3; every procedure of arity 1..4 gets closed/open, text/binary, input/output streams in every argument position; all conjunctions of up to 3/4 of 20 goals that call, retract, assert and abolish a dynamic predicate while calls of it are open are run to exhaustion. The process must survive (fatal runtime errors are caught by re-running the batch in fine mode), the call must return, errors raised by predicates must be error(Formal, _) with an ISO formal error term, and no error may be the residue of a recovered Go panic.",
   note="Inputs beyond the length/shape bounds are not covered; halt/0,1 is excluded; a Go error for an unparsable text is accepted as the API's syntax error report.",
   design="DESIGN.md §3 C05"),
  "C06": dict(
-  technique="bounded-exhaustive enumeration of terms (every leaf class x every operator/functor context to depth 2, all terms of depth <= 2 in every operator table reached by op/3 over three names, a number grid over every binade) built without the reader, written by the real writer and read back by the real reader under the same table and flags; structural comparison, floats by bit pattern",
+  technique="bounded-exhaustive enumeration of terms (every leaf class x every operator/functor context to depth 2, all terms of depth <= 2 in every operator table reached by op/3 over three names, a token-adjacency family of 16 operator names that can fuse with a neighbouring token x all specifiers x leaves of every token class, one atom per Unicode general category, a number grid over every binade) built without the reader, written by the real writer and read back by the real reader under the same table and flags; structural comparison, floats by bit pattern",
   text="Every term of the enumerated families is constructed through atom_codes/2, =../2 and placeholders (never through the reader), written with each of writeq, write_canonical, write_term quoted / quoted+ignore_ops under each double_quotes flag, and the text followed by ' .' is read with read_term/2 in the same interpreter; the term read must be identical up to variable renaming. Operator tables are reached by op/3 (21 single definitions on two names, and pairs); numbers go there and back through number_codes/number_chars over a grid of every (8th) binade x 64 mantissa patterns x sign and the neighbours of every power of ten.",
   note="Trusted: the term builder (atom_codes/2, =../2, placeholders - checked by C15/C16). '$VAR'(N) terms are excluded as the property states.",
   design="DESIGN.md §3 C06"),
